@@ -20,7 +20,7 @@ TECHNIQUE = 'differential monitor (with vs without index) with audit-hook eviden
 RULE = ('files from vlib.model.gen_file and writer programs; non-trivial = file with >=2 segments or padded/absent metadata in some segment; '
         'distinct = (family, per-segment signatures, truncated?)')
 ASSUMPTIONS = ['a truncated data file beside a complete index must read like the truncated data file alone']
-REQUIRED = ['foreign_sibling_index_cases', 'with_index_compared', 'index_opened_by_library', 'index_only_opens', 'index_only_data_reads_refused', 'family:model',
+REQUIRED = ['relative_name_file_objects', 'foreign_sibling_index_cases', 'with_index_compared', 'index_opened_by_library', 'index_only_opens', 'index_only_data_reads_refused', 'family:model',
             'family:writer', 'family:truncated', 'family:marker', 'modes:read', 'modes:open', 'modes:read_metadata']
 N = {'quick': 1600, 'thorough': 300000}
 
@@ -148,6 +148,32 @@ def run_case(case, ctx):
             ctx.violation('foreign-sibling-index-used/%s' % C.snapshot_diff(a, got)[0][0], {'diffs': C.snapshot_diff(a, got)[:3], 'file': desc})
         os.remove(opath)
         os.remove(sibling)
+        # ... nor is an index of the same name in the CURRENT directory the index of a file object that was opened by a
+        # relative name somewhere else
+        dir_a, dir_b = os.path.join(ctx.tmpdir, 'day1'), os.path.join(ctx.tmpdir, 'day2')
+        os.makedirs(dir_a, exist_ok=True)
+        os.makedirs(dir_b, exist_ok=True)
+        util.write_file(os.path.join(dir_a, 'log.tdms'), blob)
+        util.write_file(os.path.join(dir_b, 'log.tdms_index'), other)
+        cwd_ = os.getcwd()
+        fobj = None
+        try:
+            os.chdir(dir_a)
+            fobj = open('log.tdms', 'rb')
+            os.chdir(dir_b)
+            got = snap(lambda: TdmsFile.read(fobj), True)
+        finally:
+            os.chdir(cwd_)
+            if fobj is not None:
+                fobj.close()
+        ctx.count('relative_name_file_objects')
+        if isinstance(a, tuple) or isinstance(got, tuple):
+            if a != got:
+                ctx.violation('index-from-another-directory-used/raises-differently', {'without': a if isinstance(a, tuple) else 'ok', 'with': got if isinstance(got, tuple) else 'ok'})
+        elif C.snapshot_diff(a, got):
+            ctx.violation('index-from-another-directory-used/%s' % C.snapshot_diff(a, got)[0][0], {'diffs': C.snapshot_diff(a, got)[:3], 'file': desc})
+        os.remove(os.path.join(dir_a, 'log.tdms'))
+        os.remove(os.path.join(dir_b, 'log.tdms_index'))
     # ---- index alone
     if case['fam'] in ('model', 'writer'):
         only = os.path.join(ctx.tmpdir, 'only%d.tdms_index' % os.getpid())
